@@ -108,6 +108,36 @@ def run(ctx):
             raise vlib.Trouble("MavenResolveMC_nearest: %s" % rn.error)
         design_cex = "TLC violates DoneNearest on the algorithm model after %d distinct states (expected: C07-F25 exists at design level)" % rn.distinct if rn.violation else \
                      "DoneNearest holds on the algorithm model (the design-level form of C07-F25 is gone)"
+    seeded_with_model = 0
+    if not ctx.replay:
+        # what the documented algorithm (MavenResolve.tla) returns on every SEEDED universe too: a nearest-wins deviation is the
+        # recorded finding C07-F25 exactly when the real graph is the one the restart algorithm, as modelled, produces
+        seededf, seedmodf = os.path.join(wdir, "seeded_cases.ndjson"), os.path.join(wdir, "seeded_model.raw")
+        seeded = cases[nmodel:]
+        # one single-threaded TLC per slice (lines longer than the output buffer are not written atomically by parallel workers)
+        import concurrent.futures as cf
+        nparts = 14
+        bounds = [(k * len(seeded)) // nparts for k in range(nparts + 1)]
+
+        def one(k):
+            cf_, of_ = "%s.%02d" % (seededf, k), "%s.%02d" % (seedmodf, k)
+            vlib.write_ndjson(cf_, [{"universe": c["universe"]} for c in seeded[bounds[k]:bounds[k + 1]]])
+            r = vlib.tlc("MavenResolveMC", os.path.join(vlib.SPEC, "MavenResolveMC_file.cfg"), wdir, env={"VERIF_OUT": of_, "VERIF_CASES": cf_}, workers=1, timeout=3000, heap="3g")
+            vlib.tlc_must_pass(r, "MavenResolveMC on the seeded universes (slice %d)" % k)
+            return r, vlib.read_ndjson(of_)
+        models = []
+        with cf.ThreadPoolExecutor(max_workers=nparts) as ex:
+            for r, ms in ex.map(one, [k for k in range(nparts) if bounds[k + 1] > bounds[k]]):
+                mr_states += r.distinct
+                mr_gen += r.generated
+                models += ms
+        canon = lambda u: json.dumps(u, sort_keys=True)
+        bymodel = {canon(m["universe"]): m["model"] for m in models}
+        for c in seeded:
+            m = bymodel.get(canon(c["universe"]))
+            if m is not None:
+                c["model"] = m
+                seeded_with_model += 1
     step_info = None
     if not ctx.replay:
         step_info = vlib.step_traces(vh, "maven", "MavenStepTrace", "MavenStepTrace.cfg", wdir, tablesf, mcases if ctx.tier == "quick" else mcases[::8], "Maven")
@@ -156,7 +186,7 @@ def run(ctx):
     rc = verdict.finish(wdir)
     if model_diff:
         json.dump(model_diff[:20], open(os.path.join(wdir, "model_divergence.json"), "w"), indent=1)
-        print("NOTE: the real resolver differs from the algorithm model MavenResolve.tla on %d of %d family universes (not a verdict; see %s)"
+        print("NOTE: the real resolver differs from the algorithm model MavenResolve.tla on %d universes (of %d family universes and the seeded ones) (not a verdict; see %s)"
               % (len(model_diff), nmodel, os.path.join(wdir, "model_divergence.json")))
     s = next(json.loads(l) for l in lines if json.loads(l)["ok"])
     cov = {"states": states + r0.distinct + mr_states, "transitions": gen + r0.generated + mr_gen, "traces_validated_against_impl": resolved, "evaluations": len(lines),
@@ -165,7 +195,7 @@ def run(ctx):
                    "non-trivial = resolved graph with >= 4 nodes; %d resolutions ended in a resolver error (not judged)" % errs,
            "samples": [{"root": s["root"], "artifacts": len(s["universe"]), "graph": s["graph"]}],
            "resolutions_abandoned_after_60s": abandoned, "known_findings_hit": {k: v[0] for k, v in verdict.hits.items()}, "exhaustive": False,
-           "algorithm_model": {"family_universes": nmodel, "states": mr_states, "real_resolver_differs_on": len(model_diff), "nearest_wins_on_the_model": design_cex, "step_traces": step_info}}
+           "algorithm_model": {"family_universes": nmodel, "states": mr_states, "real_resolver_differs_on": len(model_diff), "nearest_wins_on_the_model": design_cex, "step_traces": step_info, "seeded_universes_with_model_result": seeded_with_model}}
     vlib.write_evidence(pid, ctx.tier, ctx.seed, "model_checking", cov, time.time() - t0, violations=len(verdict.violations),
                         assumptions=["TLC 1.8.0", "VersionRange semantics and ComparableVersion order from Ranges.tla / Order.tla", "single registry",
                                      "nearest-wins is judged per artifact key that no declaration of the universe constrains with a range; the restart staleness of the clean tree is modelled as named deviations (C07-F25)"])
